@@ -315,6 +315,14 @@ def load_findings(pid):
 # running operations
 
 
+class RealCodeDied(Exception):
+    """the harness process hung or died while executing one operation on the real code"""
+
+    def __init__(self, kind, op, detail):
+        super().__init__(f"{kind}: {op}: {detail}")
+        self.kind, self.op, self.detail = kind, op, detail
+
+
 def run_ops(pid, label, harness_args, stdin_path=None, timeout=7200):
     """run the harness (generator or replay), then the driver; returns (ops_path, verdict_path)"""
     rdir = os.path.join(CACHE, "run")
@@ -327,7 +335,25 @@ def run_ops(pid, label, harness_args, stdin_path=None, timeout=7200):
         if stdin_path:
             fin.close()
     if p.returncode != 0:
-        raise RuntimeError(f"harness {harness_args} failed rc={p.returncode}: {p.stderr.decode(errors='replace')[-2000:]}")
+        err = p.stderr.decode(errors="replace")
+        m = re.search(r"^HANG (\d+) (.*)$", err, re.M)
+        if p.returncode == 3 and m:
+            # the watchdog of the harness: a call into the real code did not return within its limit
+            raise RealCodeDied("hang", m.group(2), f"no answer after {m.group(1)} s")
+        if p.returncode < 0 or p.returncode in (101, 134, 139):
+            # the process died inside the real code (abort, stack overflow, allocation failure … —
+            # panics are caught per operation): run it again writing each operation out before it starts
+            trace = os.path.join(rdir, f"{pid}.{label}.trace")
+            env2 = dict(ENV, OH_TRACE_OP=trace)
+            fin = open(stdin_path) if stdin_path else subprocess.DEVNULL
+            try:
+                p2 = subprocess.run([HARNESS_BIN] + harness_args, stdin=fin, stdout=subprocess.DEVNULL, stderr=subprocess.PIPE, env=env2, timeout=timeout)
+            finally:
+                if stdin_path:
+                    fin.close()
+            if p2.returncode != 0 and os.path.exists(trace):
+                raise RealCodeDied("crash", open(trace, errors="replace").read().strip(), f"process ended with code {p2.returncode}: {p2.stderr.decode(errors='replace')[-600:]}")
+        raise RuntimeError(f"harness {harness_args} failed rc={p.returncode}: {err[-2000:]}")
     with open(ops) as fi, open(ver, "w") as fo:
         p = subprocess.run([DRIVER], stdin=fi, stdout=fo, stderr=subprocess.PIPE, env=ENV, timeout=timeout)
     if p.returncode != 0:
@@ -566,6 +592,17 @@ def main():
                         else:
                             o, v = run_ops(pid, suite + f"-search{k}", ["run", suite, "quick", str(a.seed + 7919 * k)])
                         tally.feed(o, v, keep_samples=0)
+    except RealCodeDied as e:
+        # a call into the real code that hangs or kills the process: for C04 that operation IS the
+        # failing input (no bounded work / no normal return); for the other properties the check
+        # cannot be completed, so the property is no longer shown to hold
+        body = [f"property: {pid}", f"tier: {tier}", f"seed: {a.seed}",
+                "kind: " + ("failing-input" if pid == "C04" else "no-failing-input-found"),
+                f"what: the real code did not return normally on the operation below ({e.kind}: {e.detail})",
+                f"replay with: ./check.py {pid} --replay <this file>", "", "op: " + e.op, f"verdict: fail {e.kind}", ""]
+        path = write_replay(pid, a.seed, "fail" if pid == "C04" else "broken", "\n".join(body) + "\n")
+        print(f"VIOLATION property={pid} replay={path}" + ("" if pid == "C04" else " no-failing-input-found"))
+        sys.exit(1)
     except (RuntimeError, subprocess.TimeoutExpired) as e:
         log(f"machinery failure: {e}")
         sys.exit(2)
